@@ -92,7 +92,7 @@ register("C09", "exploration",
 register("C06", "exploration",
          "Bounded: the result of add_subcircuit / add_blackbox+fill_blackbox / strip_blackboxes is compared (node set, io lists, registry, and the full set of consistent valuations) with the composite built independently from the property statement.",
          "oracle = independently built composite + vlib.sem.refines; scope in evidence.bound",
-         explanation="bounded stand-in of the composition contracts")
+         proof=True, explanation="bounded stand-in of the composition contracts")
 register("C11", "exploration",
          "Bounded: sat / dif_out / sen_out of the two transforms and the values of sensitize, sensitivity, influence(exact), avg_sensitivity are compared with an independent evaluator that inverts n (or a startpoint) under every valuation.",
          "oracle = independent forced-inversion evaluator; pysat shim trusted; scope in evidence.bound",
@@ -157,6 +157,6 @@ for _p, (_lvl, _txt, _note) in LEVELS.items():
     CHECKS[_p]["level_text"] = _txt
     CHECKS[_p]["level_note"] = _note
     CHECKS[_p]["lean"] = True
-for _p in ("C07", "C12", "C13"):
+for _p in ("C06", "C07", "C12", "C13"):
     CHECKS[_p]["level_text"] = ("Bounded stand-in of the contract, PLUS proved obligations for part of the functions the property depends on "
                                 "(reported in evidence.coverage.obligations/functions_under_contract; not claimed as a proof of the whole property): ") + CHECKS[_p]["level_text"]
